@@ -247,7 +247,7 @@ class BuiltWorld:
         kwbranches("    ", npos, optkw, [])
         return out
 
-    def build_functions(self):
+    def build_functions(self, register=True):
         """Create one Ovld per function of the world and register its methods
         in `reg` order.  Returns {fid: dispatch function}."""
         import ovld
@@ -280,6 +280,8 @@ class BuiltWorld:
         for m in w["methods"]:
             self.mfun[m["id"]] = ns[m["id"]]
         self.src = code
+        if not register:
+            return {}
         fids = sorted({m.get("f", 1) for m in w["methods"]})
         self.ovlds = {}
         for fid in fids:
